@@ -34,6 +34,11 @@ def check_pvv(case, acc):
     try:
         if via == 'func':
             got = pinblock.calculate_pvv(pin, key, idx, pan)
+            got_kw = pinblock.calculate_pvv(pin=pin, pvv_key=key, key_index=idx, card_number=pan)
+            if got_kw != got:
+                acc.viol('c14.pvv.keyword_call', case, got_kw, got, 'calculate_pvv with keyword arguments differs '
+                         'from the positional call')
+                return
         elif via == 'iso0':
             got = pinblock.Iso0TDESPinBlockWithVisaPVV(pin=pin, card_number=pan).to_pvv(pvv_key=key, key_index=idx)
         else:
@@ -80,6 +85,11 @@ def check_keys(case, acc):
         try:
             got = keymod.calculate_kcv(k, case['len']) if case['len'] != 6 or case.get('explicit') \
                 else keymod.calculate_kcv(k)
+            got_kw = keymod.calculate_kcv(binary_key=k, kvc_length=case['len'])
+            if got_kw != got:
+                acc.viol('c14.kcv.keyword_call', case, got_kw, got, 'calculate_kcv(binary_key=, kvc_length=) differs '
+                         'from the positional call')
+                return
         except Exception as ex:
             acc.viol('c14.kcv.exception', case, repr(ex), want)
             return
